@@ -1061,7 +1061,30 @@ fn add_reach(cx: &mut Ctx, fam: &str, c: &Cfg, q: &Qry) {
         Err(e) => return build_failed(cx, fam, c, q, &e),
     };
     let query = query_value(c, q);
-    let r = run_query(&app, &query);
+    let r = if q.prefix.is_empty() {
+        run_query(&app, &query)
+    } else {
+        // a sequence on ONE application instance (C05: an earlier answer -- in particular an earlier 'no path' -- must not
+        // change a later one): first one run call per earlier query, then the earlier queries and the judged one in ONE
+        // batch (parallelism 1: one chunk, answered one after the other by one worker thread).  The judged response is
+        // found by the tag echoed in its `request`.
+        for pq in &q.prefix {
+            let _ = run_query(&app, &query_value(c, pq));
+        }
+        let mut batch: Vec<Value> = q.prefix.iter().map(|pq| query_value(c, pq)).collect();
+        batch.push(query.clone());
+        for (i, b) in batch.iter_mut().enumerate() {
+            if let Some(m) = b.as_object_mut() {
+                m.insert("c05_seq".into(), json!(i));
+            }
+        }
+        let k = batch.len() - 1;
+        cx.st.count(&format!("sequence_position:{}", k + 1));
+        match run_watchdog(&app, batch, None, WATCHDOG_MS * (k as u64 + 1)) {
+            RunOutcome::Ok(vs) => parse_response(&RunOutcome::Ok(vs.into_iter().filter(|v| v["request"]["c05_seq"] == json!(k)).collect())),
+            o => parse_response(&o),
+        }
+    };
     let s = semantics(c, q, &r);
     cx.last_err = r.err.clone();
     let forbid = forbidden(c, q);
@@ -1491,6 +1514,47 @@ fn reach_shapes() -> Vec<(String, Cfg, Qry)> {
         mk("eo_forbidden_no_target", 5, &chain, &[2], true, 0, None, only0.clone());
         mk("eo_unreachable_backwards", 5, &chain, &[], true, 3, Some(0), only0.clone());
     }
+    // sequences on one application instance: 'no path' (or another failing query) first, then queries over the same vertices
+    let base: Vec<(String, Cfg, Qry)> = out.clone();
+    let find = |name: &str, astar: bool| base.iter().find(|(n, c, _)| n == name && c.astar == astar).map(|(_, c, q)| (c.clone(), q.clone())).unwrap();
+    for astar in [false, true] {
+        // two_components: 1 -> 3 has no path; 1 -> 0 has one; the tree from 1 is {0}
+        let (c, failing) = find("two_components", astar);
+        for (name, o, d) in [("sequence_nopath_then_reachable", 1usize, Some(0usize)), ("sequence_nopath_then_tree", 1, None), ("sequence_nopath_then_other_origin", 0, Some(1))] {
+            let mut q = failing.clone();
+            q.o = o;
+            q.d = d;
+            q.prefix = vec![failing.clone()];
+            let mut ck = c.clone();
+            if d.is_none() {
+                ck.tree_fmt = Some("json".into());
+            }
+            out.push((name.to_string(), ck, q));
+        }
+        let mut q = failing.clone();
+        q.d = Some(0);
+        let mut unknown = failing.clone();
+        unknown.o = 9;
+        q.prefix = vec![failing.clone(), unknown, failing.clone()];
+        out.push(("sequence_three_failures_then_reachable".to_string(), c.clone(), q));
+        // forbidden_bridge: 0 -> 3 has no path under the class list; 0 -> 1 has one
+        let (c, failing) = find("forbidden_bridge", astar);
+        let mut q = failing.clone();
+        q.d = Some(1);
+        q.prefix = vec![failing.clone()];
+        out.push(("sequence_forbidden_bridge_then_neighbour".to_string(), c.clone(), q));
+        let mut q = failing.clone();
+        q.d = None;
+        q.prefix = vec![failing.clone()];
+        let mut ck = c.clone();
+        ck.tree_fmt = Some("json".into());
+        out.push(("sequence_forbidden_bridge_then_tree".to_string(), ck, q));
+        // only successful queries before
+        let mut q = failing.clone();
+        q.d = Some(1);
+        q.prefix = vec![q.clone(), q.clone()];
+        out.push(("sequence_all_successful".to_string(), c, q));
+    }
     out
 }
 
@@ -1881,6 +1945,18 @@ fn gen_case(r: &mut Rng, stream: &str) -> (String, Cfg, Qry, Vec<&'static str>) 
     }
     if r.chance(1, 10) {
         q.wf = Some(if sums { *r.pick(&[0.0, 0.5, 1.0]) } else { *r.pick(&[0.0, 0.5, 1.0, 3.0]) });
+    }
+    if stream == "app_reach" && r.chance(1, 4) {
+        // a sequence: the same application first answers a query towards a vertex / edge it cannot reach (when there is
+        // one; any other destination otherwise), then this query
+        let dom = if c.edge_oriented { c.net.edges.len() } else { c.net.coords.len() };
+        let start = if c.edge_oriented { c.net.edges[q.o].1 } else { q.o };
+        let dep = depths(&c, &forbid, start);
+        let unreachable: Vec<usize> = (0..dom).filter(|x| *x != q.o && dep[if c.edge_oriented { c.net.edges[*x].0 } else { *x }].is_none()).collect();
+        let mut pq = q.clone();
+        pq.prefix = vec![];
+        pq.d = Some(if unreachable.is_empty() { pick_target(r, &c, &forbid, q.o, 0) } else { *r.pick(&unreachable) });
+        q.prefix = if r.chance(1, 3) { vec![pq.clone(), pq] } else { vec![pq] };
     }
     (if consistent { "random_consistent".to_string() } else { "random_any_length".to_string() }, c, q, flags)
 }
@@ -2445,6 +2521,14 @@ fn add_frontier(cx: &mut Ctx, fam: &str, c: &Cfg, q: &Qry) {
         Ok(a) => a,
         Err(e) => return build_failed2(cx, fam, c, q, &e, &["S", "M"]),
     };
+    // a sequence: the queries this application instance answered before (their answers are judged by the cases that have
+    // them as their last query)
+    for pq in &q.prefix {
+        let _ = run_query(&app, &query_value(c, pq));
+    }
+    if !q.prefix.is_empty() {
+        cx.st.count(&format!("sequence_position:{}", q.prefix.len() + 1));
+    }
     let query = query_value(c, q);
     let r = run_query(&app, &query);
     let s = semantics(c, q, &r);
@@ -2608,6 +2692,30 @@ fn frontier_shapes() -> Vec<(String, Cfg, Qry)> {
         mk("eo_interior_edge_forbidden", FCfg::RoadClass { lookup: vec![0, 1, 0, 0, 0, 0, 0, 0], mapping: vec![] }, ex(&[("road_classes", json!([0]))]), true, 0, Some(2));
         mk("eo_turn_at_origin", FCfg::Turn { pairs: vec![(0, 1)] }, Map::new(), true, 0, Some(2));
         mk("eo_all_permitted", rc(&named), ex(&[("road_classes", json!(["road", "path"]))]), true, 0, Some(2));
+        // sequences on ONE application instance (consecutive run calls): each step is a case whose `prefix` is the steps
+        // before it and which is judged for its own query alone (seeded/C04-13: same numbers in other units; seeded/C05-14:
+        // different vehicles, smaller first and larger first)
+        let mut seq = |name: &str, fc: FCfg, steps: Vec<Map<String, Value>>, o: usize, d: Option<usize>| {
+            for k in 0..steps.len() {
+                let mut c = dist_cfg(net.clone(), "Meters", 0.0);
+                c.astar = astar;
+                c.frontier = Some(fc.clone());
+                c.tree_fmt = Some("json".into());
+                let mut q = plain_q(o, d);
+                q.extra = steps[k].clone();
+                q.prefix = steps[..k].iter().map(|e| { let mut p = plain_q(o, d); p.extra = e.clone(); p }).collect();
+                out.push((format!("{}#{}", name, k + 1), c, q));
+            }
+        };
+        let feet_pounds = Vehicle { height: (4.0, 4), width: (2.5, 4), total_length: (20.0, 4), trailer_length: (13.5, 4), total_weight: (36.0, 0), axles: 5 };
+        let vp = |v: &Vehicle| ex(&[("vehicle_parameters", v.query())]);
+        seq("sequence_same_numbers_smaller_first", vehc.clone(), vec![vp(&feet_pounds), vp(&veh)], 0, Some(3));
+        seq("sequence_same_numbers_larger_first", vehc.clone(), vec![vp(&veh), vp(&feet_pounds)], 0, Some(3));
+        seq("sequence_same_numbers_alternating", FCfg::Combined(vec![rc(&[]), vehc.clone()]), vec![vp(&feet_pounds), vp(&veh), vp(&feet_pounds), vp(&veh)], 0, Some(3));
+        seq("sequence_van_then_truck", vehc.clone(), vec![vp(&small), vp(&veh)], 0, Some(3));
+        seq("sequence_truck_then_van", vehc.clone(), vec![vp(&veh), vp(&small)], 0, Some(3));
+        seq("sequence_van_truck_back", vehc.clone(), vec![vp(&small), vp(&veh), vp(&small)], 3, Some(0));
+        seq("sequence_road_classes", rc(&named), vec![ex(&[("road_classes", json!([0]))]), ex(&[("road_classes", json!(["road", "path"]))]), Map::new(), ex(&[("road_classes", json!([3]))]), ex(&[("road_classes", json!(["road"]))])], 0, Some(3));
     }
     // every unit pair of the vehicle's quantity and the row's unit, limit clearly above / below: chain 0-1-2-..., the
     // restricted edge is the only way
@@ -3425,6 +3533,40 @@ fn main() {
         }
         if a.stream == "app_limits" {
             add_limits(&mut cx, &fam, &c, &q, None, &mut r);
+        } else if a.stream == "app_frontier" && q.extra.contains_key("vehicle_parameters") && r.chance(1, 3) {
+            // 2-4 queries in a row on one application instance: the generated query and variations of its vehicle (same numbers
+            // in other units, scaled numbers), in either order
+            let mut steps = vec![q.clone()];
+            for _ in 0..1 + r.below(3) {
+                let mut qk = steps.last().unwrap().clone();
+                let scale = match r.below(3) { 0 => 1.0, 1 => 0.5, _ => 2.0 };
+                if let Some(vp) = qk.extra.get_mut("vehicle_parameters").and_then(|x| x.as_object_mut()) {
+                    for f in ["height", "width", "total_length", "trailer_length", "total_weight"] {
+                        if let Some(arr) = vp.get_mut(f).and_then(|x| x.as_array_mut()) {
+                            if arr.len() == 2 {
+                                if let Some(x) = arr[0].as_f64() {
+                                    arr[0] = json!(x * scale);
+                                }
+                                if r.chance(1, 2) {
+                                    arr[1] = json!(if f == "total_weight" { WEIGHT_UNITS[r.below(3) as usize] } else { DIST_UNITS[r.below(5) as usize] });
+                                }
+                            }
+                        }
+                    }
+                }
+                steps.push(qk);
+            }
+            if r.chance(1, 2) {
+                steps.reverse();
+            }
+            for k in 0..steps.len() {
+                if cx.st.next_id() >= a.n {
+                    break;
+                }
+                let mut qk = steps[k].clone();
+                qk.prefix = steps[..k].to_vec();
+                add(&mut cx, "random_sequence", &c, &qk);
+            }
         } else if a.stream == "app_sums" && r.chance(1, 4) {
             // a sequence of 2-4 queries on one application instance; the first one overrides a part of the cost model
             let mut c = c.clone();
